@@ -38,7 +38,7 @@ func (c *Ctx) checkJoin(prop string, r *shape.Result, st *shape.Stage) {
 		return
 	}
 	run.Count("joins", 1)
-	site := r.RootName + "/" + st.Construct
+	site := c.joinSite(prop, r, st)
 	nonEmpty := lin.C(1)
 	if len(st.Outs) > 0 && st.Outs[0].Len != nil {
 		nonEmpty = st.Outs[0].Len
@@ -111,13 +111,18 @@ func (c *Ctx) checkJoin(prop string, r *shape.Result, st *shape.Stage) {
 			run.Violate(report.Finding{Rule: "join-alignment", Site: site, Detail: "skew " + skewText, Pos: c.P.Pos(st.Pos),
 				Message: fmt.Sprintf("operands are offset by %s, the documented formula prescribes %s (%s); anchors: %s", skewText, intr.Skew, intr.Why, leadList(ins))})
 		}
+	case prop == "C01" && func() bool { ok, _ := c.prescribedJoin(r, st); return ok }():
+		_, sub := c.prescribedJoin(r, st)
+		run.Oblige(true)
+		run.Count("formula_prescribed_joins", 1)
+		run.Sample(map[string]string{"obligation": "the offset between the operands of " + site + " is the one the documented formula prescribes", "anchors": leadList(ins), "matching sub-term": sub, "verdict": "prescribed"})
 	default:
 		run.Oblige(false)
 		w := Witness(r.G, func(env map[lin.Sym]int64) bool {
 			return nonEmpty.Eval(env) >= 1 && worst.Eval(env) != 0
 		}, worst, nonEmpty)
 		run.Violate(report.Finding{Rule: "join-alignment", Site: site, Detail: "skew " + skewText, Pos: c.P.Pos(st.Pos), Witness: w,
-			Message:    fmt.Sprintf("the operands combined here refer to different input positions (anchors %s, skew %s): the formula is evaluated on values from different days%s", leadList(ins), skewText, pathNote(r)),
+			Message:    fmt.Sprintf("the operands combined at %s refer to different input positions (anchors %s, skew %s): the formula is evaluated on values from different days%s", st.Construct, leadList(ins), skewText, pathNote(r)),
 			Derivation: gammaStrings(r)})
 	}
 }
